@@ -1,7 +1,7 @@
 ---------------------------- MODULE JudgeSLD ----------------------------
 (* C13 / C33, flow F-A: the answer sequence the real engine returns for a query on a deterministic program is
    judged against SLD!Answers (Prolog order, duplicates kept).  impl.ok: 1 answers, 2 ProbLog error. *)
-EXTENDS Inspect, Json, IOUtils
+EXTENDS Cut, Json, IOUtils
 Cases == JsonDeserialize(IOEnv.CASES_FILE)
 
 SameSeq(a, b) == Len(a) = Len(b) /\ \A i \in DOMAIN a : Variant(a[i], b[i])
@@ -22,26 +22,6 @@ ListVerdict(e, i) ==
            ELSE IF SameBag(le, li) THEN "findall-order"
            ELSE IF SameSet(le, li) THEN "findall-multiplicity"
            ELSE "findall-content"
-
-\* C33: the soft-cut library.  C.q = cut(r(Args...), I); the indexed rules are the clauses of r/(n+1) whose first
-\* argument is the index.  Expected: the answers of the applicable rule with the smallest index (standard order).
-CutIndices(P, f) == { P[i].h.a[1] : i \in { j \in DOMAIN P : P[j].h.t = "c" /\ P[j].h.c = f /\ P[j].h.a[1].t = "i" } }
-RECURSIVE CutFrom(_, _, _, _)
-CutFrom(P, call, idxs, k) ==
-  IF k > Len(idxs) THEN [ ovf |-> FALSE, ans |-> << >> ]
-  ELSE LET rc == [ t |-> "c", c |-> call.c, a |-> <<idxs[k]>> \o call.a ]
-           r == Answers(P, rc, 400)
-       IN  IF r.ovf THEN r
-           ELSE IF r.ans # << >>
-                THEN [ ovf |-> FALSE,
-                       ans |-> [ i \in DOMAIN r.ans |->
-                                   [ t |-> "c", c |-> <<99,117,116>>,
-                                     a |-> << [ t |-> "c", c |-> call.c, a |-> Tail(r.ans[i].a) ], idxs[k] >> ] ] ]
-                ELSE CutFrom(P, call, idxs, k + 1)
-CutAnswers(P, q) ==
-  LET call == q.a[1]
-      idxs == SortUnique(SetToSeq(CutIndices(P, call.c)))
-  IN  CutFrom(P, call, idxs, 1)
 
 \* first occurrences only (a tabled engine reports every answer once)
 RECURSIVE Dedup(_, _)
